@@ -237,8 +237,8 @@ Proof.
   rewrite ssp_is_sspF, E in H. exact H.
 Qed.
 
-(* [F] ssp returns an optimal plan, or the n^3+2n+1 rounds that Ssp.v gives updateTree were not enough; the chain
-   walks never run out of fuel, no assertion fails, no empty queue is read *)
+(* [F] ssp returns an optimal plan, or the rounds that Ssp.v gives updateTree were not enough (whatever tree_fuel is);
+   the chain walks never run out of fuel, no assertion fails, no empty queue is read.  Subsumed by ssp_returns. *)
 Lemma ssp_returns_or_tree_fuel pb :
   check_pb pb = true -> (forall j i, 0 <= cost pb j i < INT_MAX) -> total_demand pb <= total_capacity pb ->
   (exists x, ssp pb = Ok x /\ pb_optimal pb (plan_f x)) \/ ssp pb = Fail (EFuel 483).
@@ -274,4 +274,15 @@ Lemma ssp_optimal_checked pb x :
 Proof.
   intros Hchk Hcost E. apply ssp_optimal; try assumption.
   exact (feasible_balanced pb _ (ssp_feasible_checked pb x Hchk E)).
+Qed.
+
+(* [F] total correctness of ssp itself: tree_fuel is (at least) big_fuel *)
+Lemma tree_fuel_big n : (big_fuel n <= tree_fuel n)%positive.
+Proof. apply Pos.le_refl. Qed.
+
+Lemma ssp_returns pb :
+  check_pb pb = true -> (forall j i, 0 <= cost pb j i < INT_MAX) -> total_demand pb <= total_capacity pb ->
+  exists x, ssp pb = Ok x /\ pb_optimal pb (plan_f x).
+Proof.
+  intros H1 H2 H3. rewrite <- ssp_is_sspF. apply sspF_total; try assumption. apply tree_fuel_big.
 Qed.
